@@ -166,16 +166,78 @@ class Materialised:
     pass
 
 
-def _params_src(names, defaults, missing_default=False):
+def _params_src(sig):
+    """Python source of a parameter list with the given kinds and defaults."""
     parts = []
-    for n in names:
-        if n in defaults:
-            parts.append("%s=H_D[%r]" % (n, n))
-        elif missing_default:
-            parts.append("%s=H_MISSING" % n)
+    seen_posonly = False
+    star_done = False
+    for i, p in enumerate(sig):
+        k = p["kind"]
+        if k != "posOnly" and seen_posonly:
+            parts.append("/")
+            seen_posonly = False
+        if k == "posOnly":
+            seen_posonly = True
+        if k == "kwOnly" and not star_done:
+            parts.append("*")
+            star_done = True
+        d = "=H_D[%r]" % p["name"] if p.get("default") is not None else ""
+        if k == "varPos":
+            parts.append("*" + p["name"])
+            star_done = True
+        elif k == "varKw":
+            parts.append("**" + p["name"])
         else:
-            parts.append(n)
+            parts.append(p["name"] + d)
+    if seen_posonly:
+        parts.append("/")
     return ", ".join(parts)
+
+
+def py_signature(case):
+    """`inspect.Signature` over ids: CPython's own binding is the oracle for what the body receives."""
+    kinds = {"posOnly": inspect.Parameter.POSITIONAL_ONLY, "posOrKw": inspect.Parameter.POSITIONAL_OR_KEYWORD,
+             "varPos": inspect.Parameter.VAR_POSITIONAL, "kwOnly": inspect.Parameter.KEYWORD_ONLY,
+             "varKw": inspect.Parameter.VAR_KEYWORD}
+    ps = []
+    for p in case["sig"]:
+        d = p.get("default")
+        ps.append(inspect.Parameter(p["name"], kinds[p["kind"]],
+                                    default=inspect.Parameter.empty if d is None else d))
+    return inspect.Signature(ps)
+
+
+_BARE_CACHE = {}
+
+
+def py_bind(case):
+    """{param: canonical value} as CPython binds the call, or None if it rejects it.
+
+    The oracle is a *real call* of a bare function with the same signature (not
+    `inspect.Signature.bind`, which rejects `f(1, a=2)` for `def f(a, /, **kw)`)."""
+    sig = case["sig"]
+    src = _params_src(sig)
+    dvals = dict((p["name"], p["default"]) for p in sig if p.get("default") is not None)
+    key = (src, tuple(sorted(dvals.items())))
+    fn = _BARE_CACHE.get(key)
+    if fn is None:
+        ns = {"H_D": dvals}
+        exec("def bare(%s):\n    return locals()" % src, ns)
+        fn = _BARE_CACHE[key] = ns["bare"]
+    try:
+        loc = fn(*case["args"], **dict(case["kwargs"]))
+    except TypeError:
+        return None
+    kinds = dict((p["name"], p["kind"]) for p in sig)
+    out = {}
+    for n, v in loc.items():
+        if kinds[n] == "varPos":
+            out[n] = ["t", list(v)]
+        elif kinds[n] == "varKw":
+            out[n] = ["d", sorted([k, x] for k, x in v.items())]
+        else:
+            out[n] = ["o", v]
+    return out
 
 
 def build(case):
@@ -246,9 +308,20 @@ def build(case):
             return NonExc()
         raise w.exc(a["raises"]["e"])
 
+    def canon_bound(bound):
+        out = []
+        for k, v in bound.items():
+            if isinstance(v, tuple):
+                out.append([k, ["t", [w.id_of(x) for x in v]]])
+            elif isinstance(v, dict):
+                out.append([k, ["d", sorted([kk, w.id_of(x)] for kk, x in v.items())]])
+            else:
+                out.append([k, w.canon_val("", v)])
+        return sorted(out)
+
     def body_hook(bound):
         body_ans = orc["body"]
-        w.log.append(["body", sorted([k, w.canon_val("", v)] for k, v in bound.items())])
+        w.log.append(["body", canon_bound(bound)])
         k = _ans_kind(body_ans)
         if k == "ret":
             if kind in ("init",):
@@ -260,7 +333,7 @@ def build(case):
     async def abody_hook(bound):
         body_ans = orc["body"]
         if _ans_kind(body_ans) == "raises" and delivered_by_throw(body_ans["raises"]["e"]["id"]):
-            w.log.append(["body", sorted([k, w.canon_val("", v)] for k, v in bound.items())])
+            w.log.append(["body", canon_bound(bound)])
             await _Suspend(w.exc(body_ans["raises"]["e"]))
             raise AssertionError("resumed after suspension without an exception")
         return body_hook(bound)
@@ -358,8 +431,7 @@ def build(case):
         decos.append(d)
 
     pnames = case["paramNames"]
-    dflt = dict(case["kwdefaults"])
-    psrc = _params_src(pnames, dflt)
+    psrc = _params_src(case["sig"])
     bound_src = "dict(%s)" % ", ".join("%s=%s" % (p, p) for p in pnames)
     adef = "async def" if is_async else "def"
     body_line = "    return await H_abody(%s)" % bound_src if is_async else "    return H_body(%s)" % bound_src
@@ -442,7 +514,7 @@ def classify_exception(w, exc):
             return ["TypeError", "factoryNotException", None]
         if "exception class supplied" in msg:
             return ["TypeError", "classNotException", None]
-        return ["TypeError", "?", msg[:80]]
+        return ["other", "TypeError", None]
     if isinstance(exc, ValueError):
         if "Unexpected coroutine (async) condition" in msg:
             return ["ValueError", "coroFnCondOnSync", None, cause_id]
@@ -639,27 +711,27 @@ def run_seq(steps, keep=False):
 def model_view(case, mo):
     """Bring the model's observation into the same canonical form as `run`'s:
     the body event shows the *bound* parameters, computed by CPython's own binding
-    of the forwarded (args, kwargs) to the bare signature."""
-    pnames = case["paramNames"]
-    dflt = dict(case["kwdefaults"])
+    (`inspect.Signature.bind`) of the forwarded (args, kwargs) to the bare signature."""
     trace = []
+    out = mo["out"]
+    rejected = False
     for ev in mo["trace"]:
         if ev[0] == "body":
-            args, kwargs = ev[1], dict(ev[2])
-            bound = {}
-            for n, i in dflt.items():
-                bound[n] = ["o", i]
-            for n, a in zip(pnames, args):
-                bound[n] = ["o", a]
-            for k, v in kwargs.items():
-                bound[k] = ["o", v]
+            c2 = dict(case)
+            c2["args"], c2["kwargs"] = ev[1], ev[2]
+            bound = py_bind(c2)
+            if bound is None:
+                # Python itself rejects the call when the wrapper forwards it: TypeError, the body never starts
+                rejected = True
+                break
             trace.append(["body", sorted([k, v] for k, v in bound.items())])
         else:
             trace.append(ev)
-    out = mo["out"]
+    if rejected:
+        out = ["raise", ["other", "TypeError", None]]
     if out[0] == "ret" and case["kind"] in ("propset", "propdel", "init"):
         out = ["ret", None]
-    return {"trace": trace, "out": out, "inprog": sorted(mo["inprog"])}
+    return {"trace": trace, "out": out, "inprog": sorted(mo["inprog"], key=str)}
 
 
 def loosen(x):
